@@ -62,11 +62,13 @@ def run_property(chk, pid, want_parse=True, want_build=False, quick_n=6000, thor
         ops += builtin_build_ops(rng, max(200, n // 20))
     total = collections_counter()
     B = 20000
-    for i in range(0, len(ops), B):
+    i = 0
+    while i < len(ops):
         chunk = ops[i:i + B]
         # never cut a build program in two
         while i + len(chunk) < len(ops) and not ops[i + len(chunk)].split(" ")[0] in ("parse", "new"):
             chunk.append(ops[i + len(chunk)])
+        i += len(chunk)
         st = wc.run_wire(chk, pid, chunk, sig_of=sig_of)
         if st is None:
             return
